@@ -25,6 +25,9 @@ type C08Cfg struct {
 	Late     int       `json:"late"`
 	MsgLen   int       `json:"msgLen"`
 	NonFIFO  bool      `json:"nonFIFO,omitempty"` // links may reorder their own protocol messages (a reconnect between two sends, a dispatcher per message)
+	// DirectOrder, when set: the PS key generators are used directly (no orchestrator), with the party list handed to
+	// every Init - and to the prover - in exactly this order, which need not be ascending
+	DirectOrder []uint16 `json:"directOrder,omitempty"`
 	// Part, when set: the nodes that generate the key, a subset of the membership Deploy.IDs (sparse identifiers)
 	Part []uint16 `json:"part,omitempty"`
 }
@@ -54,6 +57,17 @@ func genC08(seed uint64, tier string) C08Cfg {
 		c.Deploy.RealInitDelayMs = rd.Range(1, 40)
 	}
 	c.NonFIFO = prng.Derive(seed, "non-fifo").Bool(0.25)
+	if rd := prng.Derive(seed, "direct-order"); rd.Bool(0.15) {
+		part := c.Part
+		if part == nil {
+			part = c.Deploy.IDs
+		}
+		c.DirectOrder = append([]uint16(nil), part...)
+		for i := len(c.DirectOrder) - 1; i > 0; i-- {
+			j := rd.Intn(i + 1)
+			c.DirectOrder[i], c.DirectOrder[j] = c.DirectOrder[j], c.DirectOrder[i]
+		}
+	}
 	return c
 }
 
@@ -186,6 +200,35 @@ func runC08(t *testing.T, spec RunSpec) *RunResult {
 	res.ConfigKey = fmt.Sprintf("ps n=%d t=%d L=%d %s %s nonfifo=%v", cfg.N, cfg.T, cfg.MsgLen, mode, ids, cfg.NonFIFO)
 	restore := seedCryptoRand(spec.Seed)
 	defer restore()
+	if cfg.DirectOrder != nil {
+		res.ConfigKey = fmt.Sprintf("ps n=%d t=%d L=%d direct-api shuffled-party-list", len(cfg.DirectOrder), cfg.T, cfg.MsgLen)
+		var dshares map[uint16][]byte
+		var dlg *CountLogger
+		bubble(t, func() {
+			w := netsim.NewWorld(spec.Seed)
+			w.Serial = true
+			w.NonFIFO = cfg.NonFIFO
+			trace(spec, res.Cfg, w)
+			dlg = NewCountLogger()
+			var calls []*netsim.Call
+			var ss *netsim.ScriptSched
+			dshares, calls, ss = runDirectDKG(spec, w, "ps", cfg.DirectOrder, cfg.T, cfg.MsgLen, cfg.Strategy, dlg)
+			res.Violations = append(res.Violations, panicViolations(w, "C08/panic")...)
+			if len(dshares) != len(cfg.DirectOrder) && len(res.Violations) == 0 {
+				res.Violations = append(res.Violations, netsim.Violation{Invariant: "C08/keygen-failed", Class: "C08/keygen-failed", Detail: fmt.Sprintf("fault-free PS key generation with the party list %v did not complete everywhere: %s", cfg.DirectOrder, callSummary(calls))})
+			}
+			res.Nontrivial = true
+			fillResult(res, w, ss)
+		})
+		if len(res.Violations) == 0 {
+			prob, n := psOracle(cfg.DirectOrder, cfg.DirectOrder, cfg.T, cfg.MsgLen, dshares, prng.Derive(spec.Seed, "messages"), dlg, 2)
+			res.Probes["subsets-verified"] = n
+			if prob != "" {
+				res.Violations = append(res.Violations, netsim.Violation{Invariant: "C08/ps-flow", Class: "C08/ps-flow", Detail: fmt.Sprintf("party list %v: %s", cfg.DirectOrder, prob)})
+			}
+		}
+		return res
+	}
 	shares := map[uint16][]byte{}
 	var lg *CountLogger
 	completed := false
